@@ -13,18 +13,24 @@ OBS_KIND = {"function": "function", "macro": "macro", "cpp_class": "class", "cpp
             "option": "option", "set": "data", "generic": "generic", "block": "generic"}
 
 
+class Collected(dict):
+    """{(kind, heading name): (first node, enclosing class name or None)}; .all[key] = every node with that key"""
+
+
 def collect(page):
-    """{(kind, heading name): (node, enclosing class name or None)}"""
-    out = {}
+    out = Collected()
+    out.all = {}
     for n in page.entries():
         k = rstscan.kind_of(n)
         nm = n.arg.split("(")[0] if k not in ("class", "data", "option") else n.arg
         out.setdefault((k, nm), (n, None))
+        out.all.setdefault((k, nm), []).append(n)
         if k == "class":
             for c in n.children:
                 if c.name in ("py:method", "py:attribute"):
                     ck = rstscan.kind_of(c)
                     out.setdefault((ck, c.arg.split("(")[0]), (c, n.arg))
+                    out.all.setdefault((ck, c.arg.split("(")[0]), []).append(c)
     return out
 
 
@@ -79,7 +85,8 @@ class Prop(BaseProp):
         mrng = case_rng("C08-mod", self.seed, self.tier, mi)
         b = Builder(mrng, p_doc=0.5, max_depth=3, max_items=7, compound_generic=False, allow_dangling=False,
                     kinds=["function", "macro", "option", "set", "add_test", "ct_add_test", "cpp_class", "cpp_class",
-                           "generic", "plain", "block", "cpa", "function", "cpa"], p_reuse_params=0.35)
+                           "generic", "plain", "block", "cpa", "function", "cpa"], p_reuse_params=0.35, p_clone=0.08,
+                    clone_toggle_doc=True)
         mod = b.module()
         text = render(mod, Layout(mrng, comments=0.05, wild=0.1, case="random"))
         # non-flag settings are the same under defaults and under X; half of the modules use parameter strip patterns
@@ -151,7 +158,35 @@ class Prop(BaseProp):
             def class_hidden(c):
                 # a class is shown iff documented or the class flag is on -- and its own enclosing classes do not matter
                 return c is not None and c.doc is None and not X["cpp_class"]
+            dup_keys = {}
             for it, key, cls in items:
+                if it.kind not in ("generic", "block"):
+                    dup_keys.setdefault(key, []).append(it)
+            dup_keys = {k: v for k, v in dup_keys.items() if len(v) > 1}
+            for key, group in dup_keys.items():
+                if group[0].kind in ("cpp_attr", "cpp_member", "cpp_constructor", "cpp_class"):
+                    res.count("overloaded_member_names_not_compared")
+                    continue
+                # the same name is defined/declared several times (documented and undocumented variants): the entries that
+                # carry doc text must be the same blocks under X as under defaults; with the kind's flag off no entry
+                # without doc text may remain
+                res.count("repeated_name_groups_checked")
+
+                def with_doc(nodes):
+                    return sorted(tuple(blk(n)) for n in nodes if any(oracle.LINE_ID.search(l) for l in n.lines))
+                dd, xx = with_doc(D.all.get(key, [])), with_doc(Xe.all.get(key, []))
+                if dd != xx:
+                    viol(f"documented-entry-changed-or-missing:repeated-name:{group[0].kind}", f"{key}: {len(dd)} documented blocks "
+                         f"under defaults, {len(xx)} under X (or their text differs)", False)
+                k0 = group[0].kind
+                if k0 in FLAGS and not X[k0]:
+                    bare = [n for n in Xe.all.get(key, []) if not any(oracle.LINE_ID.search(l) for l in n.lines)]
+                    ndoc_empty = sum(1 for g in group if g.doc is not None and not any(oracle.LINE_ID.search(l) for l in g.doc))
+                    if len(bare) > ndoc_empty:
+                        viol(f"undocumented-shown-with-flag-off:repeated-name:{k0}", f"{key}: {len(bare)} entries without doc text", False)
+            for it, key, cls in items:
+                if key in dup_keys:
+                    continue
                 if it.doc is not None:
                     res.count("documented_entries_compared")
                     if it.kind in ("generic", "block"):
